@@ -19,6 +19,11 @@ TRUSTED_BASE = [
     "library is evaluated in exact integer arithmetic in this file (_exact_energy); a harness failure is raised if that energy is "
     "below the model's minimum; sigma_min/sigma_max (predicate and tolerance scale) is numpy's SVD of a matrix built in this file; "
     "scipy.optimize.linear_sum_assignment pairs expected and estimated frequencies",
+    "kind rdef: rank of the regressor matrix and THE minimum are computed in this file in exact integer arithmetic (_exact_ls: "
+    "fraction-free elimination of the Gram matrix, dependent columns skipped), the energy of the returned coefficients and the inner "
+    "products residual x regressor likewise (_exact_energy, _exact_grad); kind rdefx checks that reference against the Lean model in "
+    "exact mode on every run (model rejects as singular <=> exact rank < order; equal rational minima on full-rank records); "
+    "sigma_rank/sigma_max (domain predicate) is numpy's SVD of a matrix built in this file",
     "oracle references written in numpy inside this file: the data matrix (_dmat), numpy.linalg.lstsq for the backward and the "
     "lower-order modified-covariance minima, numpy.linalg.cond for the conditioning predicate (no library routine is used to "
     "select or to judge a case)",
@@ -40,7 +45,19 @@ ASSUMPTIONS = ["N - p >= p for all four functions (the boundary N = 2p included 
                "sigma_min/sigma_max >= 1e-4 (cond(XcH Xc) <= 1e8: tags xmin:*:marple-checked / marple-excluded(cond>1e8)), there a "
                "ValueError is a violation; the returned error / variance is compared with the exact minimum relative to eps |x|^2 |a|_1 "
                "(it is computed as e0 + Cz.a: cancellation makes it unreliable relative to a minimum below eps |x|^2, on the unchanged "
-               "tree too, so it is not compared relative to the minimum)"]
+               "tree too, so it is not compared relative to the minimum)",
+               "kind rdef (exactly rank-deficient regressors, minimum > 0): only the clauses that are meaningful without a unique minimiser - "
+               "returned error = energy of the returned coefficients = THE minimum, residual orthogonal to every regressor; domain: the "
+               "non-zero singular values are resolved in double precision, sigma_rank/sigma_max >= 1e-13 (tag rdef:*:unresolved(excluded) "
+               "counts the others); rank deficiency from exact ZEROS only: records whose dependent columns are non-zero (constant / "
+               "alternating / periodic integer data with a changed end sample, order > number of components) are excluded as a PENDING "
+               "FINDING on the unchanged tree (/tmp/finding_C14.py: scipy's cut-off eps sigma_max keeps null directions computed as "
+               "1e-16..6e-16 sigma_max; coefficients 1e14, error off by 1% of |x|^2, AssertionError on complex data); the Marple routines "
+               "are not evaluated on rank-deficient records (measured: non-finite coefficients / ValueError on 40% / 80% of them; tag "
+               "rdef:*:marple-excluded(rank<p)); tolerances relative to eps^2 |x|^2 (1+|a|_1)^2 (energy), eps |x|^2 max(1,|a|_1) (error) and "
+               "eps |column| |x| (1+|a|_1) (orthogonality) with a = the returned coefficients, 38x..100x the worst of 22400 records on the "
+               "unchanged tree; kind sanity fails the run when fewer than 60% of the generated records are rank deficient with a non-zero "
+               "minimum (for each of the two methods)"]
 RULE = ("real/complex data of length 6..128 (noise, exponentials in noise, noiseless exponentials, integer data, wide dynamic range, "
         "complex dtype with zero imaginary part; handed over as float64/complex128 arrays, int64/int32 arrays, lists of floats, "
         "complex numbers or Python ints) x orders 1..min(N/2, 20), N = 2p included for all four functions; order 0 of the Marple "
@@ -55,6 +72,14 @@ RULE = ("real/complex data of length 6..128 (noise, exponentials in noise, noise
         "N = 8..96, order <= 14; for each: arcovar, modcovar, pcovar(...).ar/.rho, pmodcovar(...).ar/.rho and (where cond(XcH Xc) <= 1e8) "
         "arcovar_marple / modcovar_marple against the exact minimiser and minimum of the Lean model (rationals), the energy of the "
         "returned coefficients evaluated in exact integer arithmetic and compared relative to the MINIMUM + rounding floor, not to |x|^2; "
+        "kind rdef (EXACTLY rank-deficient regressors, target outside their span: minimiser not unique, minimum > 0): records that are "
+        "exactly zero except a burst (white noise / small integers / a single impulse / a step; real and complex) in the last m <= p samples, "
+        "in the first m samples (impulse at n = 0 included) or at both ends, N = 6..128, orders 1..min(N/2, 20) incl. N = 2p and rank 0 "
+        "(all regressors zero), handed over as float64/complex128 arrays, int64/int32 arrays, lists of floats / complex / Python ints: "
+        "arcovar, modcovar, pcovar(...).ar/.rho, pmodcovar(...).ar/.rho - returned error (rho x rows) = THE minimum computed in exact "
+        "integer arithmetic, exact energy of the returned coefficients = that minimum, residual orthogonal to every regressor; "
+        "records of the family that turn out full rank or with a zero minimum are evaluated too and counted (tags rdef:cov:* / rdef:mod:*); "
+        "kind rdefx: the exact reference against the Lean model (singular <=> rank < order, equal minima); "
         "non-trivial = order >= 2")
 
 
@@ -599,6 +624,255 @@ def _xmin_tags(p):
     return t
 
 
+# --------------------------------------------------------------------------------------------------
+# Exactly rank-deficient regressors with the target OUTSIDE their span (kind rdef): the minimiser is not unique, THE minimum
+# is - and it is strictly positive.  The kinds above never reach this regime: laws / lawsdyn keep cond(XcH Xc) <= 1e8,
+# xmin keeps sigma_min/sigma_max >= 1e-13, overfit (rank deficient) only has noiseless exponentials, where the minimum is 0,
+# so "the returned error is that minimum" was never evaluated on a rank-deficient record with a non-zero minimum (an error
+# taken from a solver's `residues` output, which is EMPTY whenever rank < order, is 0 there).
+# Reference: rank and minimum in exact integer arithmetic in this file (_exact_ls: fraction-free elimination of the Gram matrix
+# of the regressors, dependent columns skipped - the minimum over an independent column subset IS the minimum); cross-checked
+# against the Lean model (kind rdefx: the model rejects the record as singular exactly when the exact rank is < order, and
+# on full-rank records its minimum is the same rational).
+# Domain (printed predicates, tags rdef:*): the `rank` non-zero singular values are resolved in double precision,
+# sigma_rank/sigma_max >= 1e-13 (numpy SVD of a matrix built here; same threshold as xmin) - below that scipy's cut-off
+# eps sigma_max truncates directions that carry energy and no floating-point solver reaches the exact minimum;
+# the fast Marple routines are kept out of every rank-deficient record (tag rdef:*:marple-excluded(rank<p)): measured on the
+# unchanged tree over 2400 such records, arcovar_marple returns non-finite coefficients on 40% and modcovar_marple raises
+# ValueError on 80% of them (they solve the singular normal equations).
+# Tolerances = what the UNCHANGED tree achieves (sweeps of gen_rdef: 160 seeds of the thorough tier + 200 seeds of the quick tier
+# = 22400 records; worst observed -> bound used):
+#   E(a) - e*                      2412 u  -> 1e5 u  (41x; heavy tail: 2412 once, 902 next)   u = eps^2 |x|^2 (1 + |a|_1)^2
+#   |e - e*|, |rho rows - e*|      30 w    -> 3e3 w  (100x)  w = eps |x|^2 max(1, |a|_1)
+#   |<residual, regressor j>|      10.4 v  -> 400 v  (38x)   v = eps |column j| |x| (1 + |a|_1), evaluated exactly
+# (a = the RETURNED coefficients: the minimiser is not unique, the library returns the minimum-norm one; a solution whose energy
+#  is off by 1e-20 of the signal energy exceeds the first line by six orders of magnitude; an error of 0 instead of a minimum of
+#  1e-3 |x|^2 exceeds the second by nine.)
+RDEF_RHO_MIN = 1e-13
+RDEF_ORTH_TOL = 400.0
+_RDEF_CACHE = {}
+
+
+def _rdef_rows(x, order, modified):
+    """regressor rows / targets of the forward (+ backward) problem as exact integers: ([(re, im)] per row, (re, im)), k with
+    samples = ints / 2^k"""
+    X, k = _ints(x)
+    N, p = len(X), order
+    rows = []
+    for t in range(p, N):
+        rows.append(([X[t - j - 1] for j in range(p)], X[t]))
+        if modified:
+            rows.append(([(X[t - p + j + 1][0], -X[t - p + j + 1][1]) for j in range(p)], (X[t - p][0], -X[t - p][1])))
+    return rows, k
+
+
+def _exact_ls(x, order, modified):
+    """(rank of the regressor matrix, minimum of the forward (+ backward) energy) in exact arithmetic, whatever the rank.
+    The complex problem is written as a real one of twice the size; fraction-free (Bareiss) elimination of the augmented Gram
+    matrix [[G, h], [h^T, y^T y]]: a zero pivot of a positive semi-definite Schur complement means the whole row / column is
+    zero (asserted) = a column that depends on the earlier ones, which is skipped; after the last pivot the corner entry
+    divided by the last pivot is the minimum."""
+    from fractions import Fraction
+    rows, k = _rdef_rows(x, order, modified)
+    cplx = any(v[1] for m, y in rows for v in m + [y])
+    R = []
+    for m, y in rows:
+        if cplx:
+            R.append([v[0] for v in m] + [-v[1] for v in m] + [y[0]])
+            R.append([v[1] for v in m] + [v[0] for v in m] + [y[1]])
+        else:
+            R.append([v[0] for v in m] + [y[0]])
+    R = [r for r in R if any(r)]
+    q = (2 if cplx else 1) * order
+    if not R:
+        return 0, Fraction(0)
+    A = np.array(R, dtype=object)
+    S = [list(r) for r in A.T.dot(A)]
+    prev, rank = 1, 0
+    for kk in range(q):
+        d = S[kk][kk]
+        if d == 0:
+            if any(S[kk][j] for j in range(kk, q + 1)):
+                raise AssertionError("harness: Gram matrix is not positive semi-definite")
+            continue
+        rank += 1
+        Sk = S[kk]
+        for i in range(kk + 1, q + 1):
+            Si = S[i]
+            f = Si[kk]
+            if f == 0 and prev == d:
+                continue
+            for j in range(kk + 1, q + 1):
+                Si[j] = (d * Si[j] - f * Sk[j]) // prev       # exact division (Bareiss)
+            Si[kk] = 0
+        prev = d
+    if cplx:
+        if rank % 2:
+            raise AssertionError("harness: odd rank of a real-ified complex matrix")
+        rank //= 2
+    return rank, Fraction(S[q][q], prev) / (1 << (2 * k))
+
+
+def _exact_grad(x, a, modified):
+    """<residual of the coefficient vector a, regressor j> for every j: exact integer arithmetic, rounded once at the end"""
+    rows, kx = _rdef_rows(x, len(a), modified)
+    A, ka = _ints(a)
+    p = len(A)
+    one = 1 << ka
+    g = [[0, 0] for _ in range(p)]
+    for m, y in rows:
+        re, im = y[0] * one, y[1] * one
+        for j in range(p):
+            ar, ai = A[j]
+            re += ar * m[j][0] - ai * m[j][1]
+            im += ar * m[j][1] + ai * m[j][0]
+        for j in range(p):
+            g[j][0] += m[j][0] * re + m[j][1] * im         # conj(m_j) * r
+            g[j][1] += m[j][0] * im - m[j][1] * re
+    from fractions import Fraction
+    sc = 1 << (2 * kx + ka)
+    return np.array([complex(float(Fraction(u, sc)), float(Fraction(v, sc))) for u, v in g])
+
+
+def _rdef_facts(x, order):
+    """per function: (exact rank, exact minimum, sigma_rank/sigma_max of the regressor matrix (numpy SVD), column norms)"""
+    xc = np.asarray(x).astype(complex)
+    ck = (xc.tobytes(), order)
+    if ck in _RDEF_CACHE:
+        return _RDEF_CACHE[ck]
+    if len(_RDEF_CACHE) > 64:
+        _RDEF_CACHE.clear()
+    out = _RDEF_CACHE[ck] = []
+    for modified in (False, True):
+        rank, emin = _exact_ls(x, order, modified)
+        X = _dmat(xc, order)
+        M = X[:, 1:]
+        if modified:
+            M = np.vstack([M, np.conj(X[:, order - 1::-1])])
+        with np.errstate(all="ignore"):
+            sv = np.linalg.svd(M, compute_uv=False)
+        rho = float(sv[rank - 1] / sv[0]) if rank and np.all(np.isfinite(sv)) and sv[0] > 0 else (1.0 if rank == 0 else 0.0)
+        out.append((rank, emin, rho, np.sqrt(np.sum(np.abs(M) ** 2, axis=0))))
+    return out
+
+
+def _rdef_class(rank, order, emin, rho):
+    if not rho >= RDEF_RHO_MIN:
+        return "unresolved(excluded)"       # some non-zero singular value is below 1e-13 sigma_max
+    return ("rank<p" if rank < order else "full-rank") + ("&min>0" if emin > 0 else "&min=0")
+
+
+def rdef_measure(p):
+    """-> [(label, observed, bound, message)] for arcovar / pcovar and modcovar / pmodcovar on one record"""
+    sp = _sp()
+    xin = _present(p)
+    x = np.asarray(p["x"]).astype(complex)
+    N, order = len(x), p["order"]
+    en = float(np.sum(np.abs(x) ** 2))
+    cls = "complex" if np.iscomplexobj(p["x"]) else "real"
+    out = []
+    if en == 0:
+        return out
+    facts = _rdef_facts(p["x"], order)
+    for modified, name, cname in ((False, "arcovar", "pcovar"), (True, "modcovar", "pmodcovar")):
+        rank, estar, rho, cn = facts[modified]
+        if not rho >= RDEF_RHO_MIN:
+            continue                 # printed predicate (tag rdef:*:unresolved(excluded))
+        rows = (2 if modified else 1) * (N - order)
+        what = "minimum forward+backward energy" if modified else "minimum forward energy"
+        where = "(N=%d order=%d %s, family %s, input %s, exact rank %d, minimum / signal energy = %.3g, sigma_rank/sigma_max %.1e)" % (
+            N, order, cls, p.get("fam", "-"), _inp_tag(p)[4:], rank, float(estar) / en, rho)
+        for fname, get in ((name, lambda: getattr(sp, name)(xin, order)), (cname, None)):
+            try:
+                if get is not None:
+                    a, e = get()
+                else:
+                    q = getattr(sp, cname)(xin, order)
+                    q()
+                    a, e = q.ar, float(q.rho) * rows
+            except Exception as exn:
+                out.append((fname + ":raises", 1.0, 0.0, "%s raises %s (%s) %s" % (fname, type(exn).__name__, str(exn)[:60], where)))
+                continue
+            a = c(a)
+            e = complex(e)
+            if len(a) != order or not np.all(np.isfinite(a)) or not np.isfinite(e) or e.imag != 0:
+                out.append((fname + ":finite", 1.0, 0.0, "%s returns %d coefficients / non-finite or complex values for order %d %s" % (
+                    fname, len(a), order, where)))
+                continue
+            e = e.real
+            a1 = float(np.sum(np.abs(a)))
+            u = EPS ** 2 * en * (1.0 + a1) ** 2
+            w = EPS * en * max(1.0, a1)
+            E = _exact_energy(x, a, modified)
+            if E < estar:
+                out.append(("harness", 1.0, 0.0, "harness: exact energy of the returned coefficients is below the exact minimum %s" % where))
+                continue
+            ex = float(E - estar)
+            out.append((fname + ":energy", ex, 1e5 * u,
+                        "%s coefficients are not a minimiser: their energy %r exceeds the exact %s %r by %.3g x the rounding floor %s" % (
+                            fname, float(E), what, float(estar), ex / u if u else np.inf, where)))
+            lab = "returned error" if get is not None else "rho x rows"
+            out.append((fname + ":e", abs(e - float(estar)), 3e3 * w,
+                        "%s %s %r is not the exact %s %r (energy of the returned coefficients: %r; difference %.2e of the signal energy) %s" % (
+                            fname, lab, e, what, float(estar), float(E), abs(e - float(estar)) / en, where)))
+            if get is not None and order:
+                g = np.abs(_exact_grad(x, a, modified))
+                v = EPS * cn * np.sqrt(en) * (1.0 + a1)
+                j = int(np.argmax(g - RDEF_ORTH_TOL * v))
+                out.append((fname + ":orth", float(g[j]), RDEF_ORTH_TOL * float(v[j]),
+                            "%s residual is not orthogonal to regressor %d: |<r, column>| = %.3e = %.3g x eps |column| |x| (1+|a|_1) %s" % (
+                                fname, j + 1, g[j], g[j] / v[j] if v[j] else np.inf, where)))
+    return out
+
+
+def oracle_rdef(p):
+    return [msg for _, obs, bound, msg in rdef_measure(p) if not obs <= bound]
+
+
+def _rdef_tags(p):
+    x = np.asarray(p["x"])
+    t = ["complex" if np.iscomplexobj(x) else "real", "rdef:" + p.get("fam", "-"), _inp_tag(p)]
+    if p.get("content"):
+        t.append("rdef:content=" + p["content"])
+    for (rank, emin, rho, _), nm in zip(_rdef_facts(x, p["order"]), ("cov", "mod")):
+        k = _rdef_class(rank, p["order"], emin, rho)
+        t.append("rdef:%s:%s" % (nm, k))
+        if k.startswith("rank<p"):
+            t.append("rdef:%s:marple-excluded(rank<p)" % nm)
+            t.append("rdef:%s:rank=%s" % (nm, "0" if rank == 0 else ("p-1" if rank == p["order"] - 1 else "1..p-2")))
+    if len(x) == 2 * p["order"]:
+        t.append("N=2p")
+    if p["order"] == 1:
+        t.append("order1")
+    return t
+
+
+def oracle_rdefx(p):
+    """harness-level cross-check of the exact reference of kind rdef against the Lean model (exact mode): the model rejects a
+    record as singular exactly when _exact_ls finds rank < order, and on full-rank records both minima are the same rational"""
+    lines = []
+    for x, order in p["batch"]:
+        for cmd in ("arcovar", "modcovar"):
+            lines.append(proto.request(cmd, "Q", [order], [np.asarray(x)]))
+    rep = proto.run_driver(lines)
+    out = []
+    for i, (x, order) in enumerate(p["batch"]):
+        for modified in (False, True):
+            st, val = proto.parse_reply(rep[2 * i + modified], "Q")
+            rank, emin = _exact_ls(np.asarray(x), order, modified)
+            nm = "modcovar" if modified else "arcovar"
+            if st == "ok":
+                if rank != order or val[1][0][0] != emin:
+                    out.append("harness: exact reference (rank %d, minimum %s) disagrees with the Lean model's %s minimum %s (N=%d order=%d)" % (
+                        rank, emin, nm, val[1][0][0], len(x), order))
+            elif val == "singular":
+                if rank == order:
+                    out.append("harness: the Lean model rejects a record as singular for %s that has exact rank %d = order (N=%d)" % (nm, rank, len(x)))
+            else:
+                out.append("harness: Lean model reply %s/%s for %s (N=%d order=%d)" % (st, val, nm, len(x), order))
+    return out[:3]
+
+
 def _key(p):
     x = np.asarray(p["x"])
     return "%s|%d|%d|%s|%d" % (p.get("fn"), len(x), p["order"], np.iscomplexobj(x), hash(x.tobytes()) & 0xFFFFFF)
@@ -618,7 +892,7 @@ def _tags(p):
 # kinds whose parameters describe the content of x: no derived degenerate records
 # (lawsdyn: records of wide dynamic range pass the conditioning predicate as generated; a derived record - real part only,
 # ends zeroed, a dominant constant added - is a different record that generally does not)
-NO_DEGEN = {"overfit", "recover", "lawsdyn", "xmin"}
+NO_DEGEN = {"overfit", "recover", "lawsdyn", "xmin", "rdef"}
 
 KINDS = {
     "fit": {"impl": impl_fit, "model": model_fit, "rtol": 1e-6, "atol": 1e-9, "key": _key, "tags": _tags,
@@ -646,6 +920,10 @@ KINDS = {
                 "tags": lambda p: ["recover:%d" % p["order"], "recover:" + p.get("fam", "cexp")]},
     # exact minimum (Lean model, rationals) vs exact energy of the returned coefficients, every conditioning down to 1e-13
     "xmin": {"oracle": oracle_xmin, "key": _key, "tags": _xmin_tags, "nontrivial": lambda p: p["order"] >= 2},
+    # exactly rank-deficient regressors, target outside their span: exact rank / minimum (integer arithmetic) vs the real code
+    "rdef": {"oracle": oracle_rdef, "key": _key, "tags": _rdef_tags, "nontrivial": lambda p: p["order"] >= 2},
+    "rdefx": {"oracle": oracle_rdefx, "key": lambda p: "rdefx|%d|%d" % (len(p["batch"]), hash(np.asarray(p["batch"][0][0]).tobytes()) & 0xFFFFF),
+              "tags": lambda p: ["rdefx:%d" % len(p["batch"])]},
     "sanity": {"oracle": oracle_sanity, "key": lambda p: "sanity", "nontrivial": lambda p: False,
                "tags": lambda p: ["sanity:%s=%d/%d" % (k, v[0], v[1]) for k, v in sorted(p["counts"].items())]},
 }
@@ -777,6 +1055,109 @@ def gen_xmin(nrng, tier, counts):
             c0[0] += int(_rho(np.asarray(q["x"]).astype(complex), q["order"], False) >= XMIN_RHO_MIN)
             c0[1] += 1
             yield ("xmin", q)
+
+
+# ---- generators of the rank-deficient kind ---------------------------------------------------------------------------------
+# PENDING-FINDING (/tmp/finding_C14.py): exactly rank-deficient records whose DEPENDENT COLUMNS ARE NON-ZERO - constant /
+# alternating / period-3 / period-4 integer records with the last sample (both end samples) changed, order > number of exact
+# components (_rdef_glitch below) - break the UNCHANGED arcovar / modcovar: the singular values of the null directions are
+# computed as 1e-16..6e-16 sigma_max, above scipy.linalg.lstsq's default cut-off eps sigma_max on about 4% of such records,
+# the coefficients then blow up to 1e9..1e14, they are not a minimiser (1e-4 of the signal energy above the minimum), the
+# returned error is off by ~1% of the signal energy and complex records trip the assert 'wierd behaviour'
+# (e.g. x = ones(12), x[-1] = 3, order 2).  That input class is excluded until ruled on; only records whose rank deficiency
+# comes from exact ZEROS (zero columns / zero rows of the regressor matrix) are generated.
+RDEF_GLITCH = False
+
+
+def _rdef_burst(nrng, m, cplx, content):
+    if content == "noise":
+        b = nrng.standard_normal(m) + (1j * nrng.standard_normal(m) if cplx else 0)
+    elif content == "int":
+        b = nrng.integers(-5, 6, m).astype(float) + (1j * nrng.integers(-5, 6, m) if cplx else 0)
+        if not np.any(b):
+            b[-1] = 1.0
+    elif content == "step":
+        b = np.ones(m) * float(nrng.integers(1, 4)) * ((1 + 1j) if cplx else 1)
+    else:   # impulse: one non-zero sample somewhere in the burst
+        b = np.zeros(m, dtype=complex if cplx else float)
+        b[int(nrng.integers(0, m))] = [1.0, -2.0, 3.0, 0.5][int(nrng.integers(0, 4))] * ((1j if nrng.integers(0, 2) else 1) if cplx else 1)
+    return np.asarray(b, dtype=complex if cplx else float)
+
+
+def _rdef_NP(nrng, i, pmin=1):
+    """lengths 6..128 (one record in five above 40), orders pmin..min(N/2, 20); one in seven at the largest order (N = 2p or 20)"""
+    big = i % 5 == 4
+    N = int(nrng.integers(40, 129)) if big else int(nrng.integers(max(6, 2 * pmin), 41))
+    pmax = min(N // 2, 20)
+    p = pmax if i % 7 == 3 else int(nrng.integers(pmin, pmax + 1))
+    return N, p
+
+
+def _rdef_onset(nrng, i):
+    """exact zeros except a burst (white noise / small integers / one impulse / a step) in the last m <= p samples (tail), the
+    first m samples (head) or both: the regressor matrix has zero columns / rows, rank <= m - 1 (covariance) or 2m - 1 (modified)"""
+    cplx = bool(nrng.integers(0, 2))
+    N, p = _rdef_NP(nrng, i)
+    content = ["noise", "int", "impulse", "step"][i % 4]
+    where = ["tail", "tail", "head", "both", "tail"][(i // 4) % 5]
+    x = np.zeros(N, dtype=complex if cplx else float)
+    m = int(nrng.integers(1, (max(1, p // 2) if nrng.integers(0, 3) else p) + 1))
+    if where in ("tail", "both"):
+        x[N - m:] = _rdef_burst(nrng, m, cplx, content)
+    if where in ("head", "both"):
+        m0 = int(nrng.integers(1, max(2, p // 2 - m + 1))) if where == "both" else m
+        x[:m0] = _rdef_burst(nrng, m0, cplx, content)
+    inp = "array"
+    if content != "noise":
+        inp = (["array", "list"] if cplx else ["array", "int64", "pyint", "list", "int32"])[(i // 4) % (2 if cplx else 5)]
+    return {"x": x, "order": p, "fam": "onset-" + where, "content": content, "inp": inp}
+
+
+def _rdef_glitch(nrng, i):
+    """PENDING-FINDING (see above; not generated while RDEF_GLITCH is False): an exact integer recurrence of K components with
+    the last / both end / the first sample changed, order > K"""
+    cplx = bool(nrng.integers(0, 2))
+    for _ in range(20):
+        N, p = _rdef_NP(nrng, i, pmin=2)
+        b, K, nm = _xmin_base(nrng, N, cplx)
+        if p > K:
+            break
+    else:
+        return None
+    x = np.array(b, dtype=complex if cplx else float)
+    where = ["last", "both", "last", "both", "first"][i % 5]
+
+    def g():
+        v = float(nrng.integers(1, 6)) * [1, -1][int(nrng.integers(0, 2))]
+        return v * (1j if cplx and nrng.integers(0, 2) else 1)
+    if where in ("last", "both"):
+        x[-1] += g()
+    if where in ("first", "both"):
+        x[0] += g()
+    return {"x": x, "order": p, "fam": "glitch-" + where, "content": nm.split("*")[0], "K": K, "inp": "array"}
+
+
+def gen_rdef(nrng, tier, counts):
+    quick = tier == "quick"
+    fams = [(_rdef_onset, 48 if quick else 80)]
+    if RDEF_GLITCH:
+        fams.append((_rdef_glitch, 30 if quick else 50))
+    batch = []
+    for g, n in fams:
+        for i in range(n):
+            q = g(nrng, i)
+            if q is None or not np.any(q["x"]):
+                continue
+            facts = _rdef_facts(q["x"], q["order"])
+            for (rank, emin, rho, _), nm in zip(facts, ("cov", "mod")):
+                c0 = counts.setdefault("rdef-%s(rank<p&min>0)" % nm, [0, 0])
+                c0[0] += int(_rdef_class(rank, q["order"], emin, rho) == "rank<p&min>0")
+                c0[1] += 1
+            yield ("rdef", q)
+            if len(q["x"]) <= 40 and q["order"] <= 8:
+                batch.append((q["x"], q["order"]))
+    for j in range(0, len(batch), 24):
+        yield ("rdefx", {"batch": batch[j: j + 24]})
 
 
 def gen(rng, nrng, tier):
@@ -918,4 +1299,6 @@ def gen(rng, nrng, tier):
             yield ("recover", {"x": xx, "order": 2, "freqs": np.array([-0.5, 0.0]), "fam": "dc+nyquist"})
     # exact-minimum kind: ill-conditioned full-rank records (own random stream: the cases above keep their values)
     yield from gen_xmin(np.random.default_rng(int(nrng.integers(0, 2 ** 31))), tier, counts)
+    # rank-deficient kind: exact zeros, target outside the span of the regressors (own random stream)
+    yield from gen_rdef(np.random.default_rng(int(nrng.integers(0, 2 ** 31))), tier, counts)
     yield ("sanity", {"counts": {k: tuple(v) for k, v in counts.items()}})
